@@ -226,6 +226,13 @@ def run(ctx, impl_only=False):
         pairs.append((w(xs), w(ys)))
     pairs += [({'a': {1, 2}, 'b': {1, 2}}, {'a': {1, 2, 3}, 'b': {1, 2, 3}}), ({'a': {1, 2, 3}, 'b': {2, 3}}, {'a': {1, 2}, 'b': {2}}),
               ([{'x', 'y'}, {'x'}], [{'x', 'y', 'z'}, {'x', 'z'}]), ({'p': frozenset({1}), 'q': frozenset({1, 5})}, {'p': frozenset({1, 7}), 'q': frozenset({1, 5, 7})})]
+    # one object referenced from several places of t1 (a set, a list, a dictionary): each place is changed differently in t2
+    def aliased():
+        s_ = {1, 2}; l_ = [1, 2, 3]; d_ = {'u': 1}; f_ = frozenset({1, 2})
+        return [({'a': s_, 'b': s_}, {'a': {1, 2, 3}, 'b': {2, 4}}), ([s_, s_, 0], [{1}, {1, 2, 9}, 0]), ({'a': l_, 'b': l_}, {'a': [1, 2, 3, 4], 'b': [1, 5, 3]}),
+                ({'a': d_, 'b': d_, 'c': [d_]}, {'a': {'u': 2}, 'b': {'u': 1, 'v': 3}, 'c': [{'u': 'x'}]}), ({'p': f_, 'q': [f_]}, {'p': frozenset({1, 2, 3}), 'q': [frozenset({2})]}),
+                ({'a': {'in': s_}, 'b': {'in': s_}}, {'a': {'in': {1, 2, 5}}, 'b': {'in': {6}}})]
+    pairs += aliased()
     # items that the order-ignoring comparison puts in one group (equal digests) without being equal: permutations of one sub-list, sub-lists
     # that differ only in repetition; the group is removed, added, or paired with something else
     for _ in range(max(12, n // 8)):
@@ -341,13 +348,15 @@ def run(ctx, impl_only=False):
 
 def table_types(ctx):
     """the to_json / pretty / to_dict clauses over leaves of the types in the documented JSON convertor table"""
-    import datetime, decimal, uuid
+    import datetime, decimal, uuid, types, collections
     import numpy as np
     from deepdiff import DeepDiff
     pool = [decimal.Decimal('1.5'), decimal.Decimal('2'), decimal.Decimal('-0.25'), b'ab', b'cd', 'é'.encode(), datetime.datetime(2020, 1, 1, 2, 3), datetime.datetime(2021, 5, 6, tzinfo=datetime.timezone.utc),
             decimal.Decimal('Infinity'), decimal.Decimal('-Infinity'), decimal.Decimal('1E+2'), decimal.Decimal('100'), decimal.Decimal('0E-7'), float('inf'), float('-inf'), 10 ** 40,
             uuid.UUID(int=1), uuid.UUID(int=2), {1, 2}, {2, 3}, {'a'}, (1, 2), (1, 3), (), np.float32(1.5), np.float64(2.5), np.int32(3), np.int64(4), 1, 'a', None, 2.5, True,      # the table's 'type' entry serves old_type / new_type, classes as data are not claimed
-            np.array([1, 2]), np.array([1, 3]), np.array([[1.5, 2.0], [0.0, 1.0]])]
+            np.array([1, 2]), np.array([1, 3]), np.array([[1.5, 2.0], [0.0, 1.0]]),
+            types.MappingProxyType({'m': 1}), types.MappingProxyType({'m': 2, 'n': [1]}), collections.OrderedDict(a=1), collections.UserDict({'a': 2}), collections.ChainMap({'a': 1}, {'b': 2}),
+            collections.defaultdict(int, {'a': 1}), collections.Counter('aab')]      # the table's Mapping row: mappings by inheritance and by registration
     wraps = [lambda x: x, lambda x: [x, 0], lambda x: {'k': x, 'z': 1}, lambda x: {'k': [0, x]}, lambda x: (x, 'q')]
     n = 600 if ctx.thorough() else 120
     for _ in range(n):
